@@ -77,7 +77,8 @@ inductive PredRes where
   | raise (cls : String)
   deriving Repr, DecidableEq
 
-def sizedLen : V → Option Nat
+def sizedLen (x : V) : Option Nat :=
+  match x.unsub with
   | .str s => some s.length
   | .list xs | .tuple xs | .set xs | .fset xs => some xs.length
   | .dict es => some es.length
@@ -91,7 +92,7 @@ def posRes (e : V) : PredRes :=
 
 /-- `lambda t: t[i] > 0` -/
 def nthPos (i : Nat) (x : V) : PredRes :=
-  match x with
+  match x.unsub with
   | .tuple xs | .list xs => (match xs[i]? with | some e => posRes e | none => .raise "IndexError")
   | .str s => (match s.toList[i]? with | some _ => .raise "TypeError" | none => .raise "IndexError")
   | .dict es =>
@@ -110,7 +111,7 @@ def predTable : List (String × (V → PredRes)) :=
   [("nth0_pos", nthPos 0), ("nth1_pos", nthPos 1), ("nth2_pos", nthPos 2), ("nth3_pos", nthPos 3),
    ("truthy", fun x => .ret (.bool (truthy x))),
    ("is_pos", posRes),
-   ("is_str", fun x => .ret (.bool (x.cls == "str"))),
+   ("is_str", fun x => .ret (.bool (x.unsub.cls == "str"))),
    ("always", fun _ => .ret (.bool true)),
    ("never", fun _ => .ret (.bool false)),
    ("ret_none", fun _ => .ret .none),
@@ -570,7 +571,7 @@ def eval (env : Env) : Spec → V → Out
   | .ty n, t =>
     if isInst env.cls t n then (.ok t, []) else (.error (raiseAt env "_glom_match/type" 0), [])
   | .dict es, t =>
-    (match t with
+    (match t.unsub with
      | .dict items =>
        let r := dictLoop env (dictFind env es 0) items [] (requiredIdx es 0)
        (match r.1 with
@@ -583,25 +584,25 @@ def eval (env : Env) : Spec → V → Out
             else (.error (raiseAt env "_handle_dict" 2), r.2))
      | _ => (.error (raiseAt env "_handle_dict" 0), []))
   | .list alts, t =>
-    (match t with
+    (match t.unsub with
      | .list items =>
        let r := itemsLoop env alts.isEmpty (evalAlts env alts) items none
        (r.1.map V.list, r.2)
      | _ => (.error (raiseAt env "_glom_match/listlike" 0), []))
   | .set alts, t =>
-    (match t with
+    (match t.unsub with
      | .set items =>
        let r := itemsLoop env alts.isEmpty (evalAlts env alts) items none
        (r.1.bind (mkSetLike false), r.2)
      | _ => (.error (raiseAt env "_glom_match/listlike" 0), []))
   | .fset alts, t =>
-    (match t with
+    (match t.unsub with
      | .fset items =>
        let r := itemsLoop env alts.isEmpty (evalAlts env alts) items none
        (r.1.bind (mkSetLike true), r.2)
      | _ => (.error (raiseAt env "_glom_match/listlike" 0), []))
   | .tuple ps, t =>
-    (match t with
+    (match t.unsub with
      | .tuple items =>
        if items.length != ps.length then (.error (raiseAt env "_glom_match/tuple" 1), [])
        else
